@@ -4,6 +4,6 @@ cd /verif
 IDS=${@:-$(ls seeded)}
 for id in $IDS; do
   prop=$(python3 -c "import json;print(json.load(open('seeded/$id/meta.json'))['breaks_property'].split(',')[0].strip())")
-  out=$(tools/trymut.sh seeded/$id/patch.diff $prop 2>&1 | head -2 | tr '\n' ' ' | cut -c1-160)
+  out=$(tools/trymut.sh /verif/seeded/$id/patch.diff $prop 2>&1 | head -2 | tr '\n' ' ' | cut -c1-160)
   echo "$id -> $out"
 done
